@@ -456,3 +456,38 @@ Example ex_match_phase_deferred :
     option_map i_status (get st' 1) = Some Stopped /\ get st' 2 = get ex_two_heads 2 /\
     queue st' = [EvColangError; EvFlowFailed 1].
 Proof. eexists. split; [vm_compute; reflexivity|]. repeat split. Qed.
+
+(* ------------------------------------------------------------------------------------------ *)
+(* the outer loop of process_events ends because of the max_events cap, whatever the flows send *)
+
+Lemma pe_round_spec : forall St Ev (rtc : St -> Ev -> St * list Ev) max inp cnt st out st' cnt' out' stopped,
+  pe_round St Ev rtc max cnt st inp out = (st', cnt', out', stopped) ->
+  stopped = false -> cnt' = cnt + length inp /\ (inp <> [] -> cnt' <= max).
+Proof.
+  intros St Ev rtc max. induction inp as [|e inp IH]; intros cnt st out st' cnt' out' stopped H Hs; simpl in H.
+  - inversion H; subst. split; [simpl; lia|]. intros Hn. congruence.
+  - destruct (Nat.ltb max (S cnt)) eqn:Hlt.
+    + inversion H; subst. discriminate.
+    + apply Nat.ltb_ge in Hlt. destruct (rtc st e) as [st1 o].
+      destruct (IH _ _ _ _ _ _ _ H Hs) as [A B]. split; [simpl; lia|].
+      intros _. destruct inp as [|e2 inp2]; [simpl in A; lia|]. apply B. discriminate.
+Qed.
+
+Theorem process_events_terminates : forall St Ev (rtc : St -> Ev -> St * list Ev) max fuel cnt st inp,
+  cnt <= max -> max - cnt < fuel -> pe St Ev rtc false fuel max cnt st inp <> None.
+Proof.
+  intros St Ev rtc max. induction fuel as [|fuel IH]; intros cnt st inp Hc Hf; [lia|].
+  simpl. destruct inp as [|e inp]; [discriminate|].
+  destruct (pe_round St Ev rtc max cnt st (e :: inp) []) as [[[st' cnt'] out] stopped] eqn:Hr.
+  destruct stopped; [discriminate|].
+  destruct (pe_round_spec _ _ _ _ _ _ _ _ _ _ _ _ Hr eq_refl) as [A B].
+  specialize (B ltac:(discriminate)). simpl in A. apply IH; lia.
+Qed.
+
+(* with the counter reset in every round, two flows that answer each other never let it end *)
+Theorem process_events_per_round_refuted : forall max, 1 <= max ->
+  forall n cnt, pe unit nat (fun st e => (st, [e])) true n max cnt tt [0] = None.
+Proof.
+  intros max Hm. induction n as [|n IH]; intros cnt; [reflexivity|].
+  simpl. destruct (Nat.ltb max 1) eqn:Hlt; [apply Nat.ltb_lt in Hlt; lia|]. simpl. apply IH.
+Qed.
